@@ -150,6 +150,16 @@ def corpus():
     old["directives"] = [{"name": "d", "locations": ["FIELD"], "args": [{"name": "x", "type": _t("Int!"), "default": d3}]}]
     new["directives"] = [{"name": "d", "locations": ["FIELD"], "args": [{"name": "x", "type": _t("Int!"), "default": None}]}]
     out.append(_pair(old, new, [{"edit": "default_dir_arg", "path": ["d", "x"]}]))
+    # seeded C20-f: a memoised InputObjectType.field_map survives clone() / the fields setter / transforms
+    d2 = lambda fs: [{"kind": "input", "name": "I", "fields": [  # noqa: E731
+        {"name": n_, "type": _t(t_), "default": None} for n_, t_ in fs]}]
+    o_ = _mini([("f", "Int", [("x", "I", None)])], d2([("a", "Int"), ("b", "Int")]), via="code")
+    for mode in ("in_place", "clone_setter", "transform"):
+        n_ = _mini([("f", "Int", [("x", "I", None)])], d2([("a", "Int")]), via="code")
+        out.append(dict(_pair(o_, n_, [{"edit": "remove_input_field", "path": ["I", "b"]}]), derive=mode))
+    n_ = _mini([("f", "Int", [("x", "I", None)])], d2([("a", "Int"), ("b", "String"), ("c", "Int")]), via="code")
+    out.append(dict(_pair(o_, n_, [{"edit": "retype_input_field", "path": ["I", "b"], "old": _t("Int"), "new": _t("String")},
+                                   {"edit": "add_input_field", "path": ["I", "c"]}]), derive="clone_setter"))
     # open finding: safe retype not reported at all
     old, new = _mini([("f", "Int", [("x", "Int!", None)])]), _mini([("f", "Int!", [("x", "Int", None)])])
     out.append(_pair(old, new, [{"edit": "retype_field", "path": ["Query", "f"], "old": _t("Int"), "new": _t("Int!")}]))
@@ -278,6 +288,26 @@ def generate(rng, tier):
                 cases.append(_pair(od, nd, [{"edit": "retype_dir_arg", "path": ["d", "x"], "old": o, "new": n}]))
                 cases.append(_pair(_mini([("f", G.tstr(o), [])]), _mini([("f", G.tstr(n), [])]),
                                    [{"edit": "retype_field", "path": ["Query", "f"], "old": o, "new": n}]))
+    # histories: the edited schema is DERIVED from a schema object that has already been diffed
+    # (in place through the `fields` setter, clone() + setter, transform_schema hiding an input field)
+    for mode in ("in_place", "clone_setter", "transform"):
+        kinds = ["remove_input_field"] if mode == "transform" else [
+            "add_input_field", "remove_input_field", "retype_input_field", "default_input_field"]
+        got = 0
+        for _ in range(300):
+            if got >= (8 if tier == "quick" else 40):
+                break
+            base = dict(G.gen_valid_spec(rng, "code"), via="code")
+            r = G.apply_edit(rng, base, rng.choice(kinds))
+            if r is None or not _buildable(base) or not _buildable(r[0]):
+                continue
+            try:
+                _build(r[0]).validate()
+                G.derive_schema(base, r[0], mode)
+            except Exception:  # the edited schema must be valid and derivable
+                continue
+            cases.append(dict(_pair(base, r[0], [r[1]]), derive=mode))
+            got += 1
     # safe retypes of input positions (same name, non-null dropped): nothing BREAKING is reported, so the
     # variable-through-old-type operations are re-validated on them
     for a in (G.BUILTIN_NAMES if tier == "thorough" else ["Int", "Float"]):
@@ -321,9 +351,18 @@ def _changes(old_s, new_s):
 
 
 def _diff_obs(case):
-    old_s, new_s = _build(case["old"]), _build(case["new"])
+    derived = case.get("derive")
+    if derived:
+        # `new` is derived from a schema object that has been diffed before; the model gets the
+        # structures as dumped from the real objects (.fields), after the diff
+        old_s, new_s = G.derive_schema(case["old"], case["new"], derived)
+    else:
+        old_s, new_s = _build(case["old"]), _build(case["new"])
     try:
-        return {"changes": _changes(old_s, new_s)}, old_s, new_s
+        obs = {"changes": _changes(old_s, new_s)}
+        if derived:
+            obs["coq"] = [G.cschema(old_s), G.cschema(new_s)]
+        return obs, old_s, new_s
     except SchemaValidationError:
         return {"invalid": True}, old_s, new_s
     except Exception as e:  # noqa
@@ -401,19 +440,24 @@ def to_coq(case, obs):
     if case["kind"] == "pred":
         return "(CasePred %s %s %s %s)" % (_cty(case["o"]), _cty(case["n"]),
                                            ser.cbool(obs["safe_in"]), ser.cbool(obs["safe_out"]))
-    old_s, new_s = _build(case["old"]), _build(case["new"])
+    if "coq" in obs:
+        told, tnew = obs["coq"]
+    else:
+        told, tnew = G.cschema(_build(case["old"])), G.cschema(_build(case["new"]))
     if "changes" in obs:
         o = "(ObsChanges %s)" % ser.clist(obs["changes"], _cchange)
     elif obs.get("invalid"):
         o = "ObsInvalid"
     else:
         o = "ObsOther"
-    return "(CaseDiff %s %s %s)" % (G.cschema(old_s), G.cschema(new_s), o)
+    return "(CaseDiff %s %s %s)" % (told, tnew, o)
 
 
 def show_expr(case, obs):
     if case["kind"] == "pred":
         return "(safe_in %s %s, safe_out %s %s)" % ((_cty(case["o"]), _cty(case["n"])) * 2)
+    if "coq" in obs:
+        return "model_C20 %s %s" % tuple(obs["coq"])
     return "model_C20 %s %s" % (G.cschema(G.build(case["old"])), G.cschema(G.build(case["new"])))
 
 
@@ -510,6 +554,8 @@ def extra_evidence(cases, obss):
             kinds["pred"] += 1
             continue
         kinds["diff:" + ("invalid" if o.get("invalid") else "ok" if "changes" in o else "exc")] += 1
+        if c.get("derive"):
+            kinds["derived:" + c["derive"]] += 1
         for e in c["edits"]:
             kinds["edit:" + e["edit"]] += 1
         for ch in o.get("changes", []):
@@ -531,5 +577,7 @@ if __name__ == "__main__":
     cs = json.load(open(sys.argv[1]))
     res = []
     for c in cs:
-        res.append(_diff_obs(c)[0])
+        o = _diff_obs(c)[0]
+        o.pop("coq", None)
+        res.append(o)
     json.dump(res, sys.stdout)
